@@ -3,14 +3,14 @@ package nitro
 // Labels of the verification yield points (see verif_on.go / verif_off.go).
 // verifYield is an empty function unless built with -tags verif.
 const (
-	VerifPtGCSent     = 1 // collectDead handed a garbage list to the workers
-	VerifPtGCDone     = 2 // a collection worker finished one garbage list
-	VerifPtFreeSent   = 3 // barrier destructor queued a free list
-	VerifPtFreeDone   = 4 // a free worker finished one free list
-	VerifPtOpenTested = 5 // Snapshot.Open: between the zero test and the increment
-	VerifPtCloseDec   = 6 // Snapshot.Close: the decrement reached zero, before moving between the sets
-	VerifPtGCLoop     = 7 // collectDead: top of a loop iteration
-	VerifPtGCEnd      = 8 // GC: collectDead returned, flag not yet reset
-	VerifPtStoreItem  = 9 // StoreToDisk: an item was handed to a shard writer
+	VerifPtGCSent     = 1  // collectDead handed a garbage list to the workers
+	VerifPtGCDone     = 2  // a collection worker finished one garbage list
+	VerifPtFreeSent   = 3  // barrier destructor queued a free list
+	VerifPtFreeDone   = 4  // a free worker finished one free list
+	VerifPtOpenTested = 5  // Snapshot.Open: between the zero test and the increment
+	VerifPtCloseDec   = 6  // Snapshot.Close: the decrement reached zero, before moving between the sets
+	VerifPtGCLoop     = 7  // collectDead: top of a loop iteration
+	VerifPtGCEnd      = 8  // GC: collectDead returned, flag not yet reset
+	VerifPtStoreItem  = 9  // StoreToDisk: an item was handed to a shard writer
 	VerifPtStoreStep  = 10 // StoreToDisk: between two file-system mutations after the scan
 )
